@@ -609,7 +609,8 @@ func strictEqualityComparison(x Value, y Value) bool {
 // and return it via an interface{} kind.
 //
 // Export returns an error when reading the value runs script code (an accessor
-// property) and that code throws; otherwise the error is nil.
+// property) and that code throws, or when arrays and objects are nested more than
+// 10000 deep; otherwise the error is nil.
 //
 // If a reasonable conversion is not possible, then the original
 // value is returned.
@@ -630,6 +631,10 @@ func (v Value) Export() (interface{}, error) {
 	})
 	return result, err
 }
+
+// maxExportDepth is the deepest nesting of arrays and objects that export descends into;
+// the same depth that JSON.parse accepts.
+const maxExportDepth = 10000
 
 func (v Value) export() interface{} {
 	return v.exportPath(map[*object]struct{}{})
@@ -667,6 +672,10 @@ func (v Value) exportPath(path map[*object]struct{}) interface{} {
 		}
 		if _, cyclic := path[obj]; cyclic {
 			return v
+		}
+		if len(path) >= maxExportDepth {
+			// Every level of nesting is a level of Go recursion, and the Go stack is finite.
+			panic(obj.runtime.panicRangeError("exceeded max depth"))
 		}
 		path[obj] = struct{}{}
 		defer delete(path, obj)
